@@ -45,9 +45,11 @@ def h16 (g : List Nat) : Bool := decide (1 ≤ g.length) && decide (g.length ≤
 
 /-- index of the first `::` -/
 def findDC : List Nat → Option (List Nat × List Nat)
-  | 58 :: 58 :: rest => some ([], rest)
-  | x :: xs => (findDC xs).map fun (l, r) => (x :: l, r)
   | [] => none
+  | [_] => none
+  | x :: y :: rest =>
+    if x == 58 && y == 58 then some ([], rest)
+    else (findDC (y :: rest)).map fun (l, r) => (x :: l, r)
 
 /-- a colon-separated run of groups, the last of which may be a dotted quad;
 returns the number of 16-bit groups it stands for, `none` if malformed; `[]` stands for no groups -/
